@@ -9,6 +9,9 @@ import (
 	"sort"
 	"strings"
 
+	"golang.org/x/tools/go/callgraph"
+	"golang.org/x/tools/go/callgraph/cha"
+	"golang.org/x/tools/go/callgraph/vta"
 	"golang.org/x/tools/go/packages"
 	"golang.org/x/tools/go/ssa"
 	"golang.org/x/tools/go/ssa/ssautil"
@@ -30,6 +33,32 @@ type Prog struct {
 	astFunc map[*ssa.Function]ast.Node
 
 	who *whoWrites // lazily built field-store index
+	cg  *callgraph.Graph
+}
+
+// vta returns the VTA call graph (seeded by CHA) over all functions with bodies; built lazily.
+func (p *Prog) vta() *callgraph.Graph {
+	if p.cg == nil {
+		fns := ssautil.AllFunctions(p.SSA)
+		p.cg = vta.CallGraph(fns, cha.CallGraph(p.SSA))
+	}
+	return p.cg
+}
+
+// vtaCallees: functions a call site may invoke according to VTA.
+func (p *Prog) vtaCallees(ci ssa.CallInstruction) []*ssa.Function {
+	g := p.vta()
+	n := g.Nodes[ci.Parent()]
+	if n == nil {
+		return nil
+	}
+	var out []*ssa.Function
+	for _, e := range n.Out {
+		if e.Site == ci && e.Callee != nil && e.Callee.Func != nil {
+			out = append(out, e.Callee.Func)
+		}
+	}
+	return out
 }
 
 type loadOpts struct {
